@@ -194,6 +194,9 @@ fn typed_and_strings(acc: &mut Acc) {
         rec!("u32", sd.sdo_read::<u32>(0x3000, 3).await);
         rec!("i32", sd.sdo_read::<i32>(0x3000, 3).await);
         rec!("u64", sd.sdo_read::<u64>(0x3000, 4).await);
+        rec!("u16x2", sd.sdo_read::<[u16; 2]>(0x3000, 3).await);
+        rec!("u32x2", sd.sdo_read::<[u32; 2]>(0x3000, 4).await);
+        rec!("u8x4", sd.sdo_read::<[u8; 4]>(0x3000, 3).await);
         rec!("string6", sd.sdo_read::<heapless::String<16>>(0x3001, 0).await);
         rec!("string40", sd.sdo_read::<heapless::String<64>>(0x3002, 0).await);
         rec!("complete", sd.sdo_read::<u16>(0x3003, SubIndex::Complete).await);
@@ -222,6 +225,9 @@ fn typed_and_strings(acc: &mut Acc) {
         ("u32", "Ok(\"3301163713\")"),
         ("i32", "Ok(\"-993803583\")"),
         ("u64", "Ok(\"15625193646072255185\")"),
+        ("u16x2", "Ok(\"[49857, 50371]\")"),
+        ("u32x2", "Ok(\"[3570651857, 3638023893]\")"),
+        ("u8x4", "Ok(\"[193, 194, 195, 196]\")"),
         ("string6", "Ok(\"\\\"EL3004\\\"\")"),
         ("string40", "Ok(\"\\\"A considerably longer device name string\\\"\")"),
         ("complete", "Ok(\"26231\")"),
